@@ -43,6 +43,9 @@ def run(index, rep):
     rep.guard(lane_rule, index, rep, "C18.HANDOFF", ("round1", "round2", "round3"), 30, "results or constants of different rounds crossed at a hand-off")
 
 
+FDM_NAME = [None]  # name of the ceiling object, learnt by cap() for greedy()
+
+
 def cap(index, rep, fn, rule="C18.CAP"):
     # evaluate the prefix of the function up to the statement that builds the ceiling
     body = [s for s in fn.body if not (isinstance(s, ast.Expr) and isinstance(s.value, ast.Constant))]
@@ -89,7 +92,11 @@ def cap(index, rep, fn, rule="C18.CAP"):
         cons0 = cons + [(T, ">="), (PF, ">=")]
         if not feasible(cons0):
             continue
-        got = env.get("kcals_daily_maximum")
+        foods = [(k, v) for k, v in env.items() if isinstance(v, PDict) and "kcals" in v.d and "kcals_units" in v.d]
+        if len(foods) != 1:
+            raise AnalysisError(f"ceiling: {len(foods)} Food constructions before the month loop (expected the ceiling object only)")
+        FDM_NAME[0], fdm = foods[0]
+        got = fdm.d.get("kcals")
         # which of the two candidate ceilings do this leaf's conditions select?
         pf_ge_t = not feasible(cons0 + [(PF - T, "<")])   # conditions imply percent fed >= threshold
         pf_le_t = not feasible(cons0 + [(PF - T, ">")])   # conditions imply percent fed <= threshold
@@ -102,10 +109,10 @@ def cap(index, rep, fn, rule="C18.CAP"):
         rep.check(isinstance(got, Rat) and any(got == w for w in want), rule, f"ceiling[{label}]" + ("" if label != "pf1?T" else f"[{where}]"),
                   "the daily kcal ceiling is not KCALS_DAILY x min(threshold, round-1 percent fed)/100 when " + where,
                   loc=loc(PARAMS, fn), detail=f"got {got}; want one of {[str(w) for w in want]}")
-        fdm = env.get("food_daily_maximum")
-        ok = isinstance(fdm, PDict) and isinstance(fdm.d.get("kcals"), Rat) and fdm.d["kcals"] == got
+        ok = isinstance(got, Rat) and all(isinstance(fdm.d.get(l), Rat) and fdm.d[l] == got for l in ("kcals", "fat", "protein")) and \
+            fdm.d.get("kcals_units") == "kcals per person per day"
         rep.check(ok, rule, f"ceiling-object[{label}]" + ("" if label != "pf1?T" else f"[{where}]"),
-                  "food_daily_maximum.kcals is not the computed ceiling", loc=loc(PARAMS, fn))
+                  "the ceiling object does not carry the computed ceiling (kcals per person per day) in all three lanes", loc=loc(PARAMS, fn))
     if not {"pf1>T", "pf1<=T"} <= arms and not ({"pf1>T", "pf1<=T", "pf1=T"} & arms and seen >= 2):
         raise AnalysisError(f"ceiling: arms {sorted(arms)} analysed, expected percent fed above and below the threshold")
     rep.require_min(rule, 4)
@@ -139,11 +146,14 @@ def greedy(index, rep, fn):
               f"the hand-off is not computed for every month 0..NMONTHS-1 ({rng})", loc=loc(PARAMS, loop))
     # remaining is reset to the ceiling inside the loop, before any consume()
     first = loop.body[0]
-    ok = isinstance(first, ast.Assign) and norm_src(first.targets[0]) == "remaining_kcals" and norm_src(first.value) == "food_daily_maximum.kcals"
+    closures0 = [s for s in loop.body if isinstance(s, ast.FunctionDef)]
+    nl = [n for c0 in closures0 for st0 in c0.body if isinstance(st0, ast.Nonlocal) for n in st0.names]
+    rem = nl[0] if len(nl) == 1 else "remaining_kcals"
+    ok = isinstance(first, ast.Assign) and norm_src(first.targets[0]) == rem and FDM_NAME[0] is not None and norm_src(first.value) == f"{FDM_NAME[0]}.kcals"
     rep.check(ok, rule, "remaining:reset-every-month",
               "remaining_kcals is not re-initialised to the ceiling at the top of every month (the ceiling would apply to the "
               "whole horizon instead of each month)", loc=loc(PARAMS, loop))
-    outside = [s for s in fn.body if isinstance(s, ast.Assign) and norm_src(s.targets[0]) == "remaining_kcals"]
+    outside = [s for s in fn.body if isinstance(s, ast.Assign) and norm_src(s.targets[0]) == rem]
     rep.check(not outside, rule, "remaining:not-initialised-outside", "remaining_kcals is (also) initialised outside the month loop", loc=loc(PARAMS, fn))
     closures = [s for s in loop.body if isinstance(s, ast.FunctionDef) and s.name == "consume"]
     if len(closures) != 1:
@@ -155,7 +165,7 @@ def greedy(index, rep, fn):
     neg = {"<": ">=", "<=": ">", ">": "<=", ">=": "<", "==": "!=", "!=": "=="}
 
     def runit(it):
-        env = {c.args.args[0].arg: f, "remaining_kcals": r}
+        env = {c.args.args[0].arg: f, rem: r}
         try:
             it.exec_block(c.body, env)
         except _Return as e:
@@ -184,12 +194,12 @@ def greedy(index, rep, fn):
         ok = isinstance(ret, Rat) and ((ret == f and f_le_r) or (ret == r and r_le_f))
         rep.check(ok, rule, "consume:returns-min(food,remaining)" + ("" if ok else f"[{where}]"),
                   f"consume() does not return min(food, remaining) when {where}", loc=loc(PARAMS, c), detail=str(ret))
-        ok2 = ok and isinstance(env.get("remaining_kcals"), Rat) and env["remaining_kcals"] == r - ret
+        ok2 = ok and isinstance(env.get(rem), Rat) and env[rem] == r - ret
         rep.check(ok2, rule, "consume:remaining-reduced-by-consumed" + ("" if ok2 else f"[{where}]"),
                   "remaining is not reduced by exactly the amount consumed", loc=loc(PARAMS, c))
     if n_leaves < 2:
         raise AnalysisError("consume(): fewer than two cases (food <= remaining, food > remaining) analysed")
-    has_nonlocal = any(isinstance(s, ast.Nonlocal) and "remaining_kcals" in s.names for s in c.body)
+    has_nonlocal = any(isinstance(s, ast.Nonlocal) and rem in s.names for s in c.body)
     rep.check(has_nonlocal, rule, "consume:shares-remaining", "consume() no longer updates the enclosing remaining_kcals (nonlocal)", loc=loc(PARAMS, c))
     rep.require_min(rule, 6)
 
@@ -213,10 +223,12 @@ def order(index, rep, fn):
     # dictionary: key -> list variable
     ret_dict = None
     for st in fn.body:
-        if isinstance(st, ast.Assign) and isinstance(st.value, ast.Dict) and norm_src(st.targets[0]) == "human_food_consumption":
+        if isinstance(st, ast.Assign) and isinstance(st.value, ast.Dict) and isinstance(st.targets[0], ast.Name) and len(st.value.keys) >= 9 and \
+                any(isinstance(r_, ast.Return) and norm_src(r_.value) == st.targets[0].id for r_ in fn.body):
             ret_dict = st.value
+            ret_name = st.targets[0].id
     if ret_dict is None:
-        raise AnalysisError("human_food_consumption dict literal not found")
+        raise AnalysisError("the returned dictionary of per-food consumption (a dict literal) was not found")
     key_of_list = {}
     for k, v in zip(ret_dict.keys, ret_dict.values):
         kk = str_const(k)
@@ -247,7 +259,7 @@ def order(index, rep, fn):
               "Validator.verify_food_usage_priorities_round2 checks a different priority sequence", loc=loc(VAL, v))
     # the result is returned and is what round 2 pins (slot flow into optimize_feed_to_animals)
     rets = [r for r in fn.body if isinstance(r, ast.Return)]
-    rep.check(len(rets) == 1 and norm_src(rets[0].value) == "human_food_consumption", rule, "returned", "the filled dictionary is not what is returned",
+    rep.check(len(rets) == 1 and norm_src(rets[0].value) == ret_name, rule, "returned", "the filled dictionary is not what is returned",
               loc=loc(PARAMS, fn))
     c2 = index.func(PARAMS, "Parameters.compute_parameters_second_round")
     asg = [s for s in walk_no_nested(c2) if isinstance(s, ast.Assign) and isinstance(s.value, ast.Call)
